@@ -3,6 +3,13 @@
 //! lawful items of `items.rs`, on operation histories `item ctor n v.. ; op ; op ; ...`; the six built-in items and two
 //! nestings also at unsigned / narrow element types with values at the types' extremes (`typed.rs`, item tokens
 //! `min:u8`, `mm:u32`, ...), and the trait constants of `rlib_num_traits` themselves (`const <type>`).
+//! Element types whose equal-comparing values are distinguishable — a record ordered by key, `f64` / `f32` — and `Sum` over a
+//! non-commutative `+` are in `keyed.rs` (`min:rec`, `max:f64`, `sum:cat`, ...).
+//!
+//! History ops beyond the API's own: `dfl` (`Default::default()`), `cp` / `x` / `y` (a value the API returned is fed back into
+//! `set` of the same tree / of a second live tree / into a constructor), a `b` prefix (the op addresses the second live tree,
+//! which is one element longer); every returned item is additionally put through `clone` / `clone_from` (fresh and used
+//! destination), constructors `iterp` / `iterr` hand `from_iter` a partially consumed / a reversed `ExactSizeIterator`.
 //!
 //! raw  = `{:?}` of every returned item / answer + `{:?}` of every probe of a search / the `debug()` string
 //! view = observable value (`.v`, `(.v,.len)`, ...) of an `ask`; for a search: answer (or `nm` when the predicate is
@@ -16,14 +23,16 @@
 #[path = "../../common/mod.rs"]
 mod common;
 mod items;
+mod keyed;
 mod typed;
 use common::*;
 use items::*;
-use typed::*;
+use keyed::*;
 use rlib_segtree::segtree_items::{Combinator, Max, MaxAdd, Min, MinAdd, Sum, SumAdd};
 use rlib_segtree::{Segtree, SegtreeItem};
 use std::cell::RefCell;
 use std::fmt::Debug;
+use typed::*;
 
 type MM = Combinator<MinAdd<i64>, MaxAdd<i64>>;
 type SMM = Combinator<Combinator<SumAdd<i64>, MinAdd<i64>>, MaxAdd<i64>>;
@@ -49,6 +58,11 @@ trait HItem: SegtreeItem<Self::M> + Clone + Default + Debug + 'static {
     fn parse_mod(toks: &[&str]) -> Option<Self::M>;
     /// read the observable value off the public fields of the real item
     fn obs(&self) -> Self::O;
+    /// raw rendering of an item: `{:?}`, except for the float instantiations (bit patterns instead of decimal digits)
+    const CUSTOM_RAW: bool = false;
+    fn raw(&self) -> String {
+        format!("{:?}", self)
+    }
     // ---- plain re-implementation of the observable algebra (independent oracle) ----
     fn o_dflt() -> Self::O;
     fn o_op(a: &Self::O, b: &Self::O) -> Self::O;
@@ -859,20 +873,7 @@ impl HItem for StrCat {
         format!("\"{}\"", o)
     }
     fn parse_pred(toks: &[&str]) -> Option<Pred<String>> {
-        let word_ok = |t: &str| !t.is_empty() && t.bytes().all(|c| c.is_ascii_lowercase());
-        if toks.len() == 2 && toks[0] == "npre" && word_ok(toks[1]) {
-            let w = toks[1].to_string();
-            return Some(Box::new(move |x: &String| !w.starts_with(x.as_str())));
-        }
-        if toks.len() == 2 && toks[0] == "nsuf" && word_ok(toks[1]) {
-            let w = toks[1].to_string();
-            return Some(Box::new(move |x: &String| !w.ends_with(x.as_str())));
-        }
-        if toks.len() == 2 && toks[0] == "slen" {
-            let c: usize = toks[1].parse().ok()?;
-            return Some(Box::new(move |x: &String| x.len() >= c));
-        }
-        pred_const(toks)
+        str_pred(toks)
     }
     fn gen_val(rng: &mut SplitMix64, _st: &Style) -> String {
         let len = 1 + rng.below(2);
@@ -894,29 +895,51 @@ impl HItem for StrCat {
         *m == (0, 0)
     }
     fn gen_pred(rng: &mut SplitMix64, aggs: &[String], elems: &[String], rev: bool) -> String {
-        pick_const(rng).unwrap_or_else(|| {
-            if rng.chance(1, 4) {
-                return format!("slen {}", rng.below(aggs.last().unwrap().len() as u64 + 2));
-            }
-            let j = rng.below(elems.len() as u64 + 1) as usize;
-            let mut parts: Vec<String> = elems[..j].to_vec();
-            if j < elems.len() && rng.chance(7, 8) {
-                // same element with one letter changed (first letter in search direction)
-                let mut b = elems[j].clone().into_bytes();
-                let k = if rev { b.len() - 1 } else { 0 };
-                b[k] = b'a' + ((b[k] - b'a') + 1 + rng.below(3) as u8) % 26;
-                parts.push(String::from_utf8(b).unwrap());
-            }
-            if rev {
-                parts.reverse();
-            }
-            let w = parts.concat();
-            if w.is_empty() {
-                return "slen 1".to_string();
-            }
-            format!("{} {}", if rev { "nsuf" } else { "npre" }, w)
-        })
+        gen_str_pred(rng, aggs, elems, rev)
     }
+}
+
+/// predicates on concatenated words (shared by `str` and `sum:cat`)
+pub fn str_pred(toks: &[&str]) -> Option<Pred<String>> {
+    let word_ok = |t: &str| !t.is_empty() && t.bytes().all(|c| c.is_ascii_lowercase());
+    if toks.len() == 2 && toks[0] == "npre" && word_ok(toks[1]) {
+        let w = toks[1].to_string();
+        return Some(Box::new(move |x: &String| !w.starts_with(x.as_str())));
+    }
+    if toks.len() == 2 && toks[0] == "nsuf" && word_ok(toks[1]) {
+        let w = toks[1].to_string();
+        return Some(Box::new(move |x: &String| !w.ends_with(x.as_str())));
+    }
+    if toks.len() == 2 && toks[0] == "slen" {
+        let c: usize = toks[1].parse().ok()?;
+        return Some(Box::new(move |x: &String| x.len() >= c));
+    }
+    pred_const(toks)
+}
+
+pub fn gen_str_pred(rng: &mut SplitMix64, aggs: &[String], elems: &[String], rev: bool) -> String {
+    pick_const(rng).unwrap_or_else(|| {
+        if rng.chance(1, 4) {
+            return format!("slen {}", rng.below(aggs.last().unwrap().len() as u64 + 2));
+        }
+        let j = rng.below(elems.len() as u64 + 1) as usize;
+        let mut parts: Vec<String> = elems[..j].to_vec();
+        if j < elems.len() && rng.chance(7, 8) {
+            // same element with one letter changed (first letter in search direction)
+            let mut b = elems[j].clone().into_bytes();
+            let k = if rev { b.len() - 1 } else { 0 };
+            b[k] = b'a' + ((b[k] - b'a') + 1 + rng.below(3) as u8) % 26;
+            parts.push(String::from_utf8(b).unwrap());
+        }
+        if rev {
+            parts.reverse();
+        }
+        let w = parts.concat();
+        if w.is_empty() {
+            return "slen 1".to_string();
+        }
+        format!("{} {}", if rev { "nsuf" } else { "npre" }, w)
+    })
 }
 
 // ------------------------------------------------------------------------------------------------------
@@ -971,128 +994,326 @@ fn monotone(flags: &[bool]) -> bool {
 
 const INVALID: &str = "I INVALID | V INVALID";
 
+/// one live tree with its plain shadow vector; `last` = the previously returned item (a *used* `clone_from` destination)
+struct Side<T: HItem> {
+    n: usize,
+    tree: Segtree<T, T::M>,
+    shadow: Vec<T::O>,
+    last: Option<T>,
+}
+
+type Built<T> = (Result<Segtree<T, <T as HItem>::M>, String>, Vec<<T as HItem>::O>);
+
+fn build_tree<T: HItem>(ctor: &str, n: usize, vals: &[T]) -> Option<Built<T>> {
+    Some(match ctor {
+        "new" if vals.len() == 1 => (catch(|| Segtree::new(n, vals[0].clone())), vec![vals[0].obs(); n]),
+        "slice" if vals.len() == n => (catch(|| Segtree::from_slice(vals)), vals.iter().map(|v| v.obs()).collect()),
+        "iter" if vals.len() == n => {
+            (catch(|| Segtree::from_iter(vals.to_vec().into_iter())), vals.iter().map(|v| v.obs()).collect())
+        }
+        // `from_iter` on a partially consumed iterator: `ExactSizeIterator::len` is what is left, not what there was
+        "iterp" if vals.len() == n => {
+            let mut all: Vec<T> = vec![T::default(), T::default()];
+            all.extend(vals.iter().cloned());
+            let mut it = all.into_iter();
+            it.next();
+            it.next();
+            (catch(|| Segtree::from_iter(it)), vals.iter().map(|v| v.obs()).collect())
+        }
+        // ... and on an adapter that is consumed from the back
+        "iterr" if vals.len() == n => {
+            let mut back: Vec<T> = vals.to_vec();
+            back.reverse();
+            (catch(|| Segtree::from_iter(back.into_iter().rev())), vals.iter().map(|v| v.obs()).collect())
+        }
+        _ => return None,
+    })
+}
+
+/// `Clone::clone` and `Clone::clone_from` — into a fresh (`Default`) and into a used destination — of a returned item
+/// must give the item back (std: `a.clone_from(&b)` is `a = b.clone()`); compared through the complete raw rendering
+fn clones_agree<T: HItem>(x: &T, last: &mut Option<T>) -> bool {
+    let want = x.raw();
+    let c1 = x.clone();
+    let mut c2 = T::default();
+    c2.clone_from(x);
+    let mut ok = c1.raw() == want && c2.raw() == want;
+    if let Some(mut used) = last.take() {
+        used.clone_from(x);
+        ok &= used.raw() == want;
+    }
+    *last = Some(c1);
+    ok
+}
+
+/// one single-tree operation; `None` = malformed
+fn step_op<T: HItem>(side: &mut Side<T>, toks: &[&str]) -> Option<(String, String)> {
+    let Side { n, tree, shadow, last } = side;
+    let n = *n;
+    Some(match toks {
+        ["set", i, v] => {
+            let (i, v) = match (i.parse::<usize>(), T::parse_val(v)) {
+                (Ok(i), Some(v)) => (i, v),
+                _ => return None,
+            };
+            let o = v.obs();
+            // every other position receives its value through `clone_from` into a fresh item
+            let v = if i % 2 == 1 {
+                let mut dst = T::default();
+                dst.clone_from(&v);
+                dst
+            } else {
+                v
+            };
+            let r = res_str(catch(|| tree.set(i, v)), |_| ".".into());
+            if i < n {
+                shadow[i] = o;
+                (r.clone(), r)
+            } else {
+                (r, "ood".into())
+            }
+        }
+        ["mod", l, r, mt @ ..] => {
+            let (l, r, m) = match (l.parse::<usize>(), r.parse::<usize>(), T::parse_mod(mt)) {
+                (Ok(l), Ok(r), Some(m)) => (l, r, m),
+                _ => return None,
+            };
+            let res = res_str(catch(|| tree.modify(l, r, &m)), |_| ".".into());
+            if l <= r && r < n {
+                for x in shadow[l..=r].iter_mut() {
+                    *x = T::o_act(&m, x);
+                }
+                (res.clone(), res)
+            } else {
+                (res, "ood".into())
+            }
+        }
+        ["ask", l, r] => {
+            let (l, r) = match (l.parse::<usize>(), r.parse::<usize>()) {
+                (Ok(l), Ok(r)) => (l, r),
+                _ => return None,
+            };
+            let in_dom = l <= r && r < n;
+            match catch(|| tree.ask(l, r)) {
+                Ok(x) => {
+                    let mut view = if in_dom { T::o_view(&x.obs()) } else { "ood".into() };
+                    if !clones_agree(&x, last) {
+                        view.push_str(" clone!");
+                    }
+                    (x.raw(), view)
+                }
+                Err(e) => (e.clone(), if in_dom { e } else { "ood".into() }),
+            }
+        }
+        [kind @ ("lb" | "lbr"), pos, pt @ ..] => {
+            let rev = *kind == "lbr";
+            let (pos, g) = match (pos.parse::<usize>(), T::parse_pred(pt)) {
+                (Ok(p), Some(g)) => (p, g),
+                _ => return None,
+            };
+            if pos >= n {
+                return None;
+            }
+            let log: RefCell<Vec<T>> = RefCell::new(Vec::new());
+            let f = |x: &T| {
+                log.borrow_mut().push(x.clone());
+                g(&x.obs())
+            };
+            let res = if rev { catch(|| tree.lower_bound_rev(pos, f)) } else { catch(|| tree.lower_bound(pos, f)) };
+            match res {
+                Ok(o) => {
+                    let log = log.into_inner();
+                    let lr: Vec<String> = log.iter().map(|p| p.raw()).collect();
+                    let raw = format!("{} [{}]", show_idx(o), lr.join(", "));
+                    let (aggs, _) = dir_aggs::<T>(shadow, pos, rev);
+                    let flags: Vec<bool> = aggs.iter().map(|a| g(a)).collect();
+                    let probes: Vec<T::O> = log.iter().map(|p| p.obs()).collect();
+                    let is_range = probes.iter().all(|p| aggs.contains(p));
+                    let pv: Vec<String> = probes.iter().map(|p| T::o_view(p)).collect();
+                    (
+                        raw,
+                        format!(
+                            "{} [{}] {}",
+                            if monotone(&flags) { show_idx(o) } else { "nm".into() },
+                            pv.join(","),
+                            if is_range { "P" } else { "p!" }
+                        ),
+                    )
+                }
+                Err(e) => (e.clone(), e),
+            }
+        }
+        ["dbg"] => match catch(|| tree.debug()) {
+            Ok(s) => {
+                // the observable values, by a second route
+                let items = catch(|| (0..n).map(|i| tree.ask(i, i)).collect::<Vec<T>>());
+                let view = match &items {
+                    Ok(v) => format!("[{}]", v.iter().map(|x| T::o_view(&x.obs())).collect::<Vec<_>>().join(",")),
+                    Err(e) => e.clone(),
+                };
+                let raw = if T::CUSTOM_RAW {
+                    // float items: `debug()` must be the `{:?}` of the single-element asks; printed as bit patterns
+                    match &items {
+                        Ok(v) if format!("{:?}", v) == s => {
+                            format!("[{}]", v.iter().map(|x| x.raw()).collect::<Vec<_>>().join(", "))
+                        }
+                        _ => format!("debug()!=asks {}", s),
+                    }
+                } else {
+                    s
+                };
+                (raw, view)
+            }
+            Err(e) => (e.clone(), e),
+        },
+        ["dfl"] => {
+            // `Default::default()`: the seed of the boundary searches
+            match catch(|| T::default()) {
+                Ok(d) => {
+                    let o = d.obs();
+                    let mut view = T::o_view(&o);
+                    if o != T::o_dflt() {
+                        view.push_str(" dflt!");
+                    }
+                    (d.raw(), view)
+                }
+                Err(e) => (e.clone(), e),
+            }
+        }
+        _ => return None,
+    })
+}
+
+/// `cp i l r` (`dst` = `src`) / `x i l r` (`dst` = the other tree): `dst.set(i, src.ask(l, r))` — a value the API
+/// returned is fed back into the API, possibly of another live object
+fn transfer<T: HItem>(sides: &mut [Side<T>], src: usize, dst: usize, i: usize, l: usize, r: usize) -> (String, String) {
+    let n = sides[src].n;
+    let in_dom = l <= r && r < n && i < sides[dst].n;
+    let got = {
+        let s = &mut sides[src];
+        catch(|| s.tree.ask(l, r))
+    };
+    match got {
+        Err(e) => (e, "ood".into()),
+        Ok(x) => {
+            let raw_x = x.raw();
+            let obs_x = x.obs();
+            // the plain side: left-to-right fold of the source's shadow with the harness's own algebra
+            let folded = if l <= r && r < n {
+                let sh = &sides[src].shadow;
+                let mut acc = sh[l].clone();
+                for k in l + 1..=r {
+                    acc = T::o_op(&acc, &sh[k]);
+                }
+                Some(acc)
+            } else {
+                None
+            };
+            let d = &mut sides[dst];
+            let res = res_str(catch(|| d.tree.set(i, x)), |_| ".".into());
+            if in_dom {
+                d.shadow[i] = folded.unwrap();
+                (format!("{} {}", raw_x, res), T::o_view(&obs_x))
+            } else {
+                (format!("{} {}", raw_x, res), "ood".into())
+            }
+        }
+    }
+}
+
+/// `y slice | iter | new`: the other live tree is rebuilt from values read back from tree `src` (constructors fed with
+/// values the API returned)
+fn rebuild<T: HItem>(sides: &mut [Side<T>], src: usize, c: &str) -> Option<(String, String)> {
+    let n = sides[src].n;
+    let (items, raw, view, shadow): (Vec<T>, String, String, Vec<T::O>) = match c {
+        "new" => {
+            let x = catch(|| sides[src].tree.ask(0, n - 1)).ok()?;
+            let sh = &sides[src].shadow;
+            let mut acc = sh[0].clone();
+            for k in 1..n {
+                acc = T::o_op(&acc, &sh[k]);
+            }
+            let (raw, view) = (x.raw(), T::o_view(&x.obs()));
+            (vec![x], raw, view, vec![acc; n])
+        }
+        "slice" | "iter" => {
+            let items = catch(|| (0..n).map(|i| sides[src].tree.ask(i, i)).collect::<Vec<T>>()).ok()?;
+            let raw = format!("[{}]", items.iter().map(|x| x.raw()).collect::<Vec<_>>().join(", "));
+            let view = format!("[{}]", items.iter().map(|x| T::o_view(&x.obs())).collect::<Vec<_>>().join(","));
+            (items, raw, view, sides[src].shadow.clone())
+        }
+        _ => return None,
+    };
+    match build_tree::<T>(c, n, &items)? {
+        (Ok(tree), _) => {
+            sides[1 - src] = Side { n, tree, shadow, last: None };
+            Some((raw, view))
+        }
+        (Err(e), _) => Some((e.clone(), e)),
+    }
+}
+
 fn run_history<T: HItem>(ctor: &str, n: usize, vals: &[&str], ops: &[&str]) -> String {
     let vals: Option<Vec<T>> = vals.iter().map(|t| T::parse_val(t)).collect();
     let vals = match vals {
         Some(v) => v,
         None => return INVALID.into(),
     };
-    let (built, mut shadow): (Result<Segtree<T, T::M>, String>, Vec<T::O>) = match ctor {
-        "new" if vals.len() == 1 => (catch(|| Segtree::new(n, vals[0].clone())), vec![vals[0].obs(); n]),
-        "slice" if vals.len() == n => (catch(|| Segtree::from_slice(&vals)), vals.iter().map(|v| v.obs()).collect()),
-        "iter" if vals.len() == n => {
-            (catch(|| Segtree::from_iter(vals.clone().into_iter())), vals.iter().map(|v| v.obs()).collect())
-        }
-        _ => return INVALID.into(),
+    let (built, shadow) = match build_tree::<T>(ctor, n, &vals) {
+        Some(b) => b,
+        None => return INVALID.into(),
     };
-    let mut tree = match built {
+    let tree = match built {
         Ok(t) => t,
         Err(e) => return out1(&e),
     };
+    let mut sides: Vec<Side<T>> = vec![Side { n, tree, shadow, last: None }];
+    // a second live tree of the same type, one element longer (same constructor, same values, the first value once more),
+    // only when the history addresses it
+    let two = ops.iter().any(|o| {
+        let t: Vec<&str> = o.split_whitespace().collect();
+        !t.is_empty() && (t[0] == "b" || t[0] == "x" || t[0] == "y")
+    });
+    if two {
+        let mut vals2 = vals.clone();
+        if ctor != "new" {
+            vals2.push(vals[0].clone());
+        }
+        match build_tree::<T>(ctor, n + 1, &vals2) {
+            Some((Ok(tree), shadow)) => sides.push(Side { n: n + 1, tree, shadow, last: None }),
+            _ => return INVALID.into(),
+        }
+    }
     let mut raws: Vec<String> = vec!["ok".into()];
     let mut views: Vec<String> = vec!["ok".into()];
     for op in ops {
-        let toks: Vec<&str> = op.split_whitespace().collect();
-        match toks.as_slice() {
-            ["set", i, v] => {
-                let (i, v) = match (i.parse::<usize>(), T::parse_val(v)) {
-                    (Ok(i), Some(v)) => (i, v),
+        let mut toks: Vec<&str> = op.split_whitespace().collect();
+        let sel = if toks.first() == Some(&"b") {
+            toks.remove(0);
+            1
+        } else {
+            0
+        };
+        let (raw, view) = match toks.as_slice() {
+            [kind @ ("cp" | "x"), i, l, r] => {
+                let (i, l, r) = match (i.parse::<usize>(), l.parse::<usize>(), r.parse::<usize>()) {
+                    (Ok(i), Ok(l), Ok(r)) => (i, l, r),
                     _ => return INVALID.into(),
                 };
-                let o = v.obs();
-                let r = res_str(catch(|| tree.set(i, v)), |_| ".".into());
-                if i < n {
-                    shadow[i] = o;
-                    views.push(r.clone());
-                } else {
-                    views.push("ood".into());
-                }
-                raws.push(r);
+                let dst = if *kind == "cp" { sel } else { 1 - sel };
+                transfer(&mut sides, sel, dst, i, l, r)
             }
-            ["mod", l, r, mt @ ..] => {
-                let (l, r, m) = match (l.parse::<usize>(), r.parse::<usize>(), T::parse_mod(mt)) {
-                    (Ok(l), Ok(r), Some(m)) => (l, r, m),
-                    _ => return INVALID.into(),
-                };
-                let res = res_str(catch(|| tree.modify(l, r, &m)), |_| ".".into());
-                if l <= r && r < n {
-                    for x in shadow[l..=r].iter_mut() {
-                        *x = T::o_act(&m, x);
-                    }
-                    views.push(res.clone());
-                } else {
-                    views.push("ood".into());
-                }
-                raws.push(res);
-            }
-            ["ask", l, r] => {
-                let (l, r) = match (l.parse::<usize>(), r.parse::<usize>()) {
-                    (Ok(l), Ok(r)) => (l, r),
-                    _ => return INVALID.into(),
-                };
-                let in_dom = l <= r && r < n;
-                match catch(|| tree.ask(l, r)) {
-                    Ok(x) => {
-                        raws.push(format!("{:?}", x));
-                        views.push(if in_dom { T::o_view(&x.obs()) } else { "ood".into() });
-                    }
-                    Err(e) => {
-                        raws.push(e.clone());
-                        views.push(if in_dom { e } else { "ood".into() });
-                    }
-                }
-            }
-            [kind @ ("lb" | "lbr"), pos, pt @ ..] => {
-                let rev = *kind == "lbr";
-                let (pos, g) = match (pos.parse::<usize>(), T::parse_pred(pt)) {
-                    (Ok(p), Some(g)) => (p, g),
-                    _ => return INVALID.into(),
-                };
-                if pos >= n {
-                    return INVALID.into();
-                }
-                let log: RefCell<Vec<T>> = RefCell::new(Vec::new());
-                let f = |x: &T| {
-                    log.borrow_mut().push(x.clone());
-                    g(&x.obs())
-                };
-                let res = if rev { catch(|| tree.lower_bound_rev(pos, f)) } else { catch(|| tree.lower_bound(pos, f)) };
-                match res {
-                    Ok(o) => {
-                        let log = log.into_inner();
-                        raws.push(format!("{} {:?}", show_idx(o), log));
-                        let (aggs, _) = dir_aggs::<T>(&shadow, pos, rev);
-                        let flags: Vec<bool> = aggs.iter().map(|a| g(a)).collect();
-                        let probes: Vec<T::O> = log.iter().map(|p| p.obs()).collect();
-                        let is_range = probes.iter().all(|p| aggs.contains(p));
-                        let pv: Vec<String> = probes.iter().map(|p| T::o_view(p)).collect();
-                        views.push(format!(
-                            "{} [{}] {}",
-                            if monotone(&flags) { show_idx(o) } else { "nm".into() },
-                            pv.join(","),
-                            if is_range { "P" } else { "p!" }
-                        ));
-                    }
-                    Err(e) => {
-                        raws.push(e.clone());
-                        views.push(e);
-                    }
-                }
-            }
-            ["dbg"] => match catch(|| tree.debug()) {
-                Ok(s) => {
-                    raws.push(s);
-                    // the observable values, by a second route
-                    let vs = catch(|| (0..n).map(|i| T::o_view(&tree.ask(i, i).obs())).collect::<Vec<_>>());
-                    views.push(res_str(vs, |v| format!("[{}]", v.join(","))));
-                }
-                Err(e) => {
-                    raws.push(e.clone());
-                    views.push(e);
-                }
+            ["y", c] => match rebuild(&mut sides, sel, c) {
+                Some(rv) => rv,
+                None => return INVALID.into(),
             },
-            _ => return INVALID.into(),
-        }
+            _ => match step_op(&mut sides[sel], &toks) {
+                Some(rv) => rv,
+                None => return INVALID.into(),
+            },
+        };
+        raws.push(raw);
+        views.push(view);
     }
     out2(&raws.join(" ; "), &views.join(" ; "))
 }
@@ -1140,6 +1361,8 @@ macro_rules! dispatch_typed {
         match $ty {
             "i8" => dispatch_base!(i8, $base, $f, $($arg),*),
             "u8" => dispatch_base!(u8, $base, $f, $($arg),*),
+            "i16" => dispatch_base!(i16, $base, $f, $($arg),*),
+            "u16" => dispatch_base!(u16, $base, $f, $($arg),*),
             "i32" => dispatch_base!(i32, $base, $f, $($arg),*),
             "u32" => dispatch_base!(u32, $base, $f, $($arg),*),
             "u64" => dispatch_base!(u64, $base, $f, $($arg),*),
@@ -1150,12 +1373,45 @@ macro_rules! dispatch_typed {
     };
 }
 
+/// the items over the harness's record type and over floats (`keyed.rs`)
+macro_rules! dispatch_keyed {
+    ($base:expr, $ty:expr, $f:ident, $($arg:expr),*) => {
+        match ($base, $ty) {
+            ("sum", "cat") => Some($f::<Sum<Cat>>($($arg),*)),
+            ("min", "rec") => Some($f::<Min<Rec>>($($arg),*)),
+            ("max", "rec") => Some($f::<Max<Rec>>($($arg),*)),
+            ("minadd", "rec") => Some($f::<MinAdd<Rec>>($($arg),*)),
+            ("maxadd", "rec") => Some($f::<MaxAdd<Rec>>($($arg),*)),
+            ("mm", "rec") => Some($f::<RMM>($($arg),*)),
+            ("min", "f64") => Some($f::<Min<f64>>($($arg),*)),
+            ("max", "f64") => Some($f::<Max<f64>>($($arg),*)),
+            ("sum", "f64") => Some($f::<Sum<f64>>($($arg),*)),
+            ("minadd", "f64") => Some($f::<MinAdd<f64>>($($arg),*)),
+            ("maxadd", "f64") => Some($f::<MaxAdd<f64>>($($arg),*)),
+            ("sumadd", "f64") => Some($f::<SumAdd<f64>>($($arg),*)),
+            ("mm", "f64") => Some($f::<FMM<f64>>($($arg),*)),
+            ("min", "f32") => Some($f::<Min<f32>>($($arg),*)),
+            ("max", "f32") => Some($f::<Max<f32>>($($arg),*)),
+            ("sum", "f32") => Some($f::<Sum<f32>>($($arg),*)),
+            ("minadd", "f32") => Some($f::<MinAdd<f32>>($($arg),*)),
+            ("maxadd", "f32") => Some($f::<MaxAdd<f32>>($($arg),*)),
+            ("sumadd", "f32") => Some($f::<SumAdd<f32>>($($arg),*)),
+            ("mm", "f32") => Some($f::<FMM<f32>>($($arg),*)),
+            _ => None,
+        }
+    };
+}
+
 fn run_case(line: &str) -> String {
     let parts: Vec<&str> = line.split(';').map(|p| p.trim()).collect();
     let hdr: Vec<&str> = parts[0].split_whitespace().collect();
     if !hdr.is_empty() && hdr[0] == "const" {
         // the trait constants of rlib_num_traits (what `Default for Min/Max/MinAdd/MaxAdd` and `SumAdd::new` are built from)
-        return if hdr.len() == 2 && parts.len() == 1 { const_line(hdr[1]).unwrap_or_else(|| INVALID.into()) } else { INVALID.into() };
+        return if hdr.len() == 2 && parts.len() == 1 {
+            const_line(hdr[1]).unwrap_or_else(|| INVALID.into())
+        } else {
+            INVALID.into()
+        };
     }
     if hdr.len() < 3 {
         return INVALID.into();
@@ -1166,6 +1422,9 @@ fn run_case(line: &str) -> String {
     };
     match hdr[0].split_once(':') {
         None => dispatch!(hdr[0], run_history, hdr[1], n, &hdr[3..], &parts[1..]).unwrap_or_else(|| INVALID.into()),
+        Some((base, ty @ ("rec" | "cat" | "f64" | "f32"))) => {
+            dispatch_keyed!(base, ty, run_history, hdr[1], n, &hdr[3..], &parts[1..]).unwrap_or_else(|| INVALID.into())
+        }
         Some((base, ty)) => {
             dispatch_typed!(base, ty, run_history, hdr[1], n, &hdr[3..], &parts[1..]).unwrap_or_else(|| INVALID.into())
         }
@@ -1296,17 +1555,25 @@ fn pick_range(rng: &mut SplitMix64, n: usize) -> (usize, usize) {
     }
 }
 
-/// weights of (set, mod, ask, lb, lbr, dbg) per focus
-fn weights(focus: &str, n: usize) -> [u64; 6] {
+/// weights of (set, mod, ask, lb, lbr, dbg, transfer `cp` / `x`, dfl) per focus
+fn weights(focus: &str, n: usize) -> [u64; 8] {
     let dbg = if n <= 17 { 3 } else { 1 };
     match focus {
-        "C02" => [10, 25, 8, 27, 27, dbg],
-        _ => [18, 30, 35, 6, 6, dbg],
+        "C02" => [10, 25, 8, 27, 27, dbg, 3, 1],
+        _ => [18, 30, 35, 6, 6, dbg, 4, 1],
     }
 }
 
-fn gen_history<T: HItem>(name: &str, rng: &mut SplitMix64, focus: &str, st: &mut Stats, big: bool) -> String {
-    let n = if big { *rng.pick(&SIZES_BIG) } else { 1 + rng.below(17) as usize };
+const SIZES_HUGE: [usize; 8] = [255, 256, 257, 511, 513, 1000, 1024, 1025];
+
+/// `size`: 0 = n in 1..17, 1 = boundary sizes 31..129, 2 = a few hundred to a thousand elements (short histories)
+fn gen_history<T: HItem>(name: &str, rng: &mut SplitMix64, focus: &str, st: &mut Stats, size: u8) -> String {
+    let big = size >= 1;
+    let n = match size {
+        0 => 1 + rng.below(17) as usize,
+        1 => *rng.pick(&SIZES_BIG),
+        _ => *rng.pick(&SIZES_HUGE),
+    };
     let style = match rng.below(5) {
         0 => Style { vlo: 0, vhi: 50, mlo: 0, mhi: 20 }, // non-negative: sum thresholds monotone
         1 => Style { vlo: -5, vhi: 5, mlo: -3, mhi: 3 }, // many ties
@@ -1314,24 +1581,41 @@ fn gen_history<T: HItem>(name: &str, rng: &mut SplitMix64, focus: &str, st: &mut
         3 => Style { vlo: 0, vhi: 3, mlo: 0, mhi: 2 },
         _ => Style { vlo: -100, vhi: 100, mlo: -50, mhi: 50 },
     };
-    let ctor = *rng.pick(&["new", "slice", "iter"]);
+    let ctor = *rng.pick(&["new", "slice", "iter", "new", "slice", "iter", "iterp", "iterr"]);
     st.bump(&format!("ctor_{}", ctor));
     st.bump(&format!("item_{}", name));
-    st.bump(if big { "n_31_to_129" } else { "n_1_to_17" });
+    st.bump(["n_1_to_17", "n_31_to_129", "n_255_to_1025"][size.min(2) as usize]);
     let vals: Vec<String> =
         if ctor == "new" { vec![T::gen_val(rng, &style)] } else { (0..n).map(|_| T::gen_val(rng, &style)).collect() };
     if vals.iter().any(|v| v.contains('@')) {
         st.bump("constructor_values_with_own_pending_modifier");
     }
-    let mut shadow: Vec<T::O> = if ctor == "new" {
+    let shadow0: Vec<T::O> = if ctor == "new" {
         vec![T::parse_val(&vals[0]).unwrap().obs(); n]
     } else {
         vals.iter().map(|v| T::parse_val(v).unwrap().obs()).collect()
     };
-    let mut tags = Tags::new(n);
-    let nops = if big { 8 + rng.below(40) } else { 4 + rng.below(60) } as usize;
+    // one history in four runs two live trees of the type side by side (ops prefixed with `b` address the second)
+    let two = rng.chance(1, 4);
+    if two {
+        st.bump("histories_with_two_live_trees");
+    }
+    // the second tree is one element longer (the first value once more)
+    let mut shadow1 = shadow0.clone();
+    shadow1.push(shadow0[0].clone());
+    let mut shadows: Vec<Vec<T::O>> = vec![shadow0, shadow1];
+    let mut ns: Vec<usize> = vec![n, n + 1];
+    let mut tagss: Vec<Tags> = vec![Tags::new(n), Tags::new(n + 1)];
+    let nops = match size {
+        0 => 4 + rng.below(60),
+        1 => 8 + rng.below(40),
+        _ => 4 + rng.below(8),
+    } as usize;
     let w = weights(focus, n);
     let total: u64 = w.iter().sum();
+    // values that were returned by the API and fed back may double a sum: at most three per history
+    let mut transfers_left = 3;
+    let mut rebuilt_new = false;
     let mut line = format!("{} {} {} {}", name, ctor, n, vals.join(" "));
     for _ in 0..nops {
         let mut x = rng.below(total);
@@ -1340,56 +1624,78 @@ fn gen_history<T: HItem>(name: &str, rng: &mut SplitMix64, focus: &str, st: &mut
             x -= w[k];
             k += 1;
         }
-        tags.crossed = 0;
+        let sel = if two && rng.chance(1, 2) { 1 } else { 0 };
+        let pre = if sel == 1 { "b " } else { "" };
+        if sel == 1 {
+            st.bump("ops_on_second_tree");
+        }
+        // on the large trees the quadratic specification of a search is the expensive part: fewer of them
+        if size >= 2 && (k == 3 || k == 4) && rng.chance(2, 3) {
+            k = 2;
+        }
+        if k == 6 && transfers_left == 0 {
+            k = 2;
+        }
+        tagss[sel].crossed = 0;
+        let n = ns[sel];
         match k {
             0 => {
                 let i = rng.below(n as u64) as usize;
                 let v = T::gen_val(rng, &style);
-                shadow[i] = T::parse_val(&v).unwrap().obs();
-                tags.set(i, 0, 0, n - 1);
+                shadows[sel][i] = T::parse_val(&v).unwrap().obs();
+                tagss[sel].set(i, 0, 0, n - 1);
                 st.bump("op_set");
-                if tags.crossed > 0 {
+                if tagss[sel].crossed > 0 {
                     st.bump("set_pushed_pending_tag");
                 }
-                line.push_str(&format!(" ; set {} {}", i, v));
+                line.push_str(&format!(" ; {}set {} {}", pre, i, v));
             }
             1 => {
                 let (l, r) = pick_range(rng, n);
                 let mt = T::gen_mod(rng, &style);
                 let toks: Vec<&str> = mt.split_whitespace().collect();
                 let m = T::parse_mod(&toks).unwrap();
-                for e in shadow[l..=r].iter_mut() {
+                for e in shadows[sel][l..=r].iter_mut() {
                     *e = T::o_act(&m, e);
                 }
-                tags.range(l, r, Some(!T::mod_identity(&m)), 0, 0, n - 1);
+                tagss[sel].range(l, r, Some(!T::mod_identity(&m)), 0, 0, n - 1);
                 st.bump("op_modify");
-                if tags.crossed > 0 {
+                if tagss[sel].crossed > 0 {
                     st.bump("modify_pushed_pending_tag");
                 }
-                line.push_str(&format!(" ; mod {} {} {}", l, r, mt));
+                line.push_str(&format!(" ; {}mod {} {} {}", pre, l, r, mt));
             }
             2 => {
                 let (l, r) = pick_range(rng, n);
-                tags.range(l, r, None, 0, 0, n - 1);
+                tagss[sel].range(l, r, None, 0, 0, n - 1);
                 st.bump("op_ask");
-                if tags.crossed > 0 {
+                if tagss[sel].crossed > 0 {
                     st.bump("ask_pushed_pending_tag");
                 }
-                line.push_str(&format!(" ; ask {} {}", l, r));
+                line.push_str(&format!(" ; {}ask {} {}", pre, l, r));
             }
             3 | 4 => {
                 let rev = k == 4;
-                let pos = rng.below(n as u64) as usize;
-                let (aggs, elems) = dir_aggs::<T>(&shadow, pos, rev);
+                let mut pos = rng.below(n as u64) as usize;
+                if size >= 2 && rng.chance(3, 4) {
+                    // the plain-list specification of a search is quadratic in the distance to the end of the array
+                    let d = rng.below(48.min(n as u64)) as usize;
+                    pos = if rev { d } else { n - 1 - d };
+                }
+                let (aggs, elems) = dir_aggs::<T>(&shadows[sel], pos, rev);
                 let pt = T::gen_pred(rng, &aggs, &elems, rev);
                 let toks: Vec<&str> = pt.split_whitespace().collect();
                 let pred = T::parse_pred(&toks).unwrap_or_else(|| panic!("generated predicate does not parse: {}", pt));
                 let flags: Vec<bool> = aggs.iter().map(|a| pred(a)).collect();
-                let found = if rev { tags.lbr(&flags, pos, pos, 0, 0, n - 1) } else { tags.lb(&flags, pos, pos, 0, 0, n - 1) };
+                let found = if rev {
+                    tagss[sel].lbr(&flags, pos, pos, 0, 0, n - 1)
+                } else {
+                    tagss[sel].lb(&flags, pos, pos, 0, 0, n - 1)
+                };
                 let nm = if rev { "lbr" } else { "lb" };
                 st.bump(&format!("op_{}", nm));
                 st.bump(&format!("pred_{}", toks[0]));
-                if tags.crossed > 0 {
+                if tagss[sel].crossed > 0 {
                     st.bump(&format!("{}_pushed_pending_tag", nm));
                 }
                 if !monotone(&flags) {
@@ -1397,14 +1703,59 @@ fn gen_history<T: HItem>(name: &str, rng: &mut SplitMix64, focus: &str, st: &mut
                 } else {
                     st.bump(if found { "search_answer_some" } else { "search_answer_none" });
                 }
-                line.push_str(&format!(" ; {} {} {}", nm, pos, pt));
+                line.push_str(&format!(" ; {}{} {} {}", pre, nm, pos, pt));
             }
-            _ => {
+            5 => {
                 for i in 0..n {
-                    tags.range(i, i, None, 0, 0, n - 1);
+                    tagss[sel].range(i, i, None, 0, 0, n - 1);
                 }
                 st.bump("op_dbg");
-                line.push_str(" ; dbg");
+                line.push_str(&format!(" ; {}dbg", pre));
+            }
+            6 => {
+                // feed a returned value back: into the same tree (`cp`) or into the other live tree (`x`)
+                transfers_left -= 1;
+                if two && rng.chance(1, 4) {
+                    // ... or into a constructor: the other tree is rebuilt from values read back from this one
+                    // (`new(n, ask(0, n-1))` multiplies a sum by n: small trees only, once per history)
+                    let c =
+                        if n <= 17 && !rebuilt_new && rng.chance(1, 3) { "new" } else { *rng.pick(&["slice", "iter"]) };
+                    for i in 0..n {
+                        tagss[sel].range(i, i, None, 0, 0, n - 1);
+                    }
+                    if c == "new" {
+                        rebuilt_new = true;
+                        let mut acc = shadows[sel][0].clone();
+                        for j in 1..n {
+                            acc = T::o_op(&acc, &shadows[sel][j]);
+                        }
+                        shadows[1 - sel] = vec![acc; n];
+                    } else {
+                        shadows[1 - sel] = shadows[sel].clone();
+                    }
+                    tagss[1 - sel] = Tags::new(n);
+                    ns[1 - sel] = n;
+                    st.bump("op_rebuild_other_tree_from_read_back_values");
+                    line.push_str(&format!(" ; {}y {}", pre, c));
+                    continue;
+                }
+                let (l, r) = pick_range(rng, n);
+                let cross = two && rng.chance(2, 3);
+                let dst = if cross { 1 - sel } else { sel };
+                let i = rng.below(ns[dst] as u64) as usize;
+                let mut acc = shadows[sel][l].clone();
+                for j in l + 1..=r {
+                    acc = T::o_op(&acc, &shadows[sel][j]);
+                }
+                tagss[sel].range(l, r, None, 0, 0, n - 1);
+                shadows[dst][i] = acc;
+                tagss[dst].set(i, 0, 0, ns[dst] - 1);
+                st.bump(if cross { "op_transfer_to_other_tree" } else { "op_transfer_same_tree" });
+                line.push_str(&format!(" ; {}{} {} {} {}", pre, if cross { "x" } else { "cp" }, i, l, r));
+            }
+            _ => {
+                st.bump("op_dfl");
+                line.push_str(&format!(" ; {}dfl", pre));
             }
         }
     }
@@ -1414,14 +1765,20 @@ fn gen_history<T: HItem>(name: &str, rng: &mut SplitMix64, focus: &str, st: &mut
         line.push_str(&format!(" ; ask {} {}", i, i));
         st.bump("op_ask");
     }
+    let _ = big;
     line
 }
 
 const ITEMS: [&str; 13] =
     ["min", "max", "sum", "minadd", "maxadd", "sumadd", "mm", "smm", "aff", "aa", "str", "flipz", "flipb"];
 
-fn gen_one(item: &str, rng: &mut SplitMix64, focus: &str, st: &mut Stats, big: bool) -> String {
-    dispatch!(item, gen_history, item, rng, focus, st, big).expect("unknown item")
+fn gen_one(item: &str, rng: &mut SplitMix64, focus: &str, st: &mut Stats, size: u8) -> String {
+    match item.split_once(':') {
+        None => dispatch!(item, gen_history, item, rng, focus, st, size).expect("unknown item"),
+        Some((base, ty)) => {
+            dispatch_keyed!(base, ty, gen_history, item, rng, focus, st, size).expect("unknown keyed item")
+        }
+    }
 }
 
 /// every history of exactly `len` ops over the alphabet `ops`, closed by `dbg`
@@ -1533,10 +1890,72 @@ fn gen(args: &Args, emit: &mut dyn FnMut(String), st: &mut Stats) {
         };
         exhaustive(&init(2), &n2, len2, emit, st, "exhaustive_small_scope_histories");
     }
+    // (1b) exhaustive small scope on element types with equal-comparing but distinguishable values: every element has
+    //      the same key (both zeros for the floats) and its own tag, so every query straddles duplicated minima / maxima;
+    //      every history of length <= 2 (3 in thorough) over n <= 5 of set (same key, new tag / a strictly better key) /
+    //      ask / copy-back / searches
+    {
+        let pz = 0u64.to_string(); // +0.0
+        let nz = (1u64 << 63).to_string(); // -0.0
+        let m1 = (-1.0f64).to_bits().to_string();
+        let p1 = 1.0f64.to_bits().to_string();
+        let tie_items: [(&str, Vec<String>, Vec<String>, &str, &str); 4] = [
+            ("min:rec", (0..5).map(|t| format!("1/{}", t)).collect(), vec!["1/9".into(), "0/8".into()], "lt 1", "lt 2"),
+            ("max:rec", (0..5).map(|t| format!("1/{}", t)).collect(), vec!["1/9".into(), "2/8".into()], "gt 1", "gt 0"),
+            (
+                "min:f64",
+                vec![pz.clone(), nz.clone(), pz.clone(), nz.clone(), pz.clone()],
+                vec![nz.clone(), pz.clone(), m1],
+                "lt 0",
+                "lt 4607182418800017408",
+            ),
+            (
+                "max:f64",
+                vec![nz.clone(), pz.clone(), nz.clone(), pz.clone(), nz.clone()],
+                vec![pz.clone(), nz.clone(), p1],
+                "gt 0",
+                "gt 13830554455654793216",
+            ),
+        ];
+        for (item, init, setv, pa, pb) in tie_items.iter() {
+            for n in 1..=5usize {
+                let hdr = format!("{} slice {} {}", item, n, init[..n].join(" "));
+                let mut ops: Vec<String> = Vec::new();
+                for i in 0..n {
+                    for v in setv {
+                        ops.push(format!("set {} {}", i, v));
+                    }
+                }
+                for l in 0..n {
+                    for r in l..n {
+                        ops.push(format!("ask {} {}", l, r));
+                    }
+                }
+                if n >= 2 {
+                    ops.push(format!("cp 0 {} {}", 0, n - 1));
+                    ops.push(format!("cp {} 0 {}", n - 1, (n - 1) / 2));
+                }
+                if focus == "C02" {
+                    for p in 0..n {
+                        ops.push(format!("lb {} {}", p, pa));
+                        ops.push(format!("lbr {} {}", p, pb));
+                    }
+                }
+                let lens: &[usize] = if thorough && n <= 4 { &[1, 2, 3] } else { &[1, 2] };
+                for &len in lens {
+                    exhaustive(&hdr, &ops, len, emit, st, "exhaustive_tie_histories");
+                }
+            }
+        }
+    }
     // (2) random structured histories
     // searches are the expensive part of the Lean side (the specification tries every candidate index afresh)
     let count = if thorough {
-        if focus == "C02" { 120_000 } else { 200_000 }
+        if focus == "C02" {
+            120_000
+        } else {
+            200_000
+        }
     } else if focus == "C02" {
         3_000
     } else {
@@ -1544,7 +1963,7 @@ fn gen(args: &Args, emit: &mut dyn FnMut(String), st: &mut Stats) {
     };
     for c in 0..count {
         // the lazy and the non-commutative items get more weight
-        let item = match rng.below(21) {
+        let item = match rng.below(33) {
             0 => "min",
             1 => "max",
             2 => "sum",
@@ -1557,16 +1976,30 @@ fn gen(args: &Args, emit: &mut dyn FnMut(String), st: &mut Stats) {
             14 | 15 => "aa",
             16 | 17 => "str",
             18 | 19 => "flipz",
-            _ => "flipb",
+            20 => "flipb",
+            // element types with equal-comparing but distinguishable values: the record (more weight), floats
+            21 => "min:rec",
+            22 => "max:rec",
+            23 => "minadd:rec",
+            24 => "maxadd:rec",
+            25 => "mm:rec",
+            _ => *rng.pick(&KEYED_ITEMS),
         };
         let big = c % 8 == 7;
-        emit(gen_one(item, &mut rng, &focus, st, big));
+        emit(gen_one(item, &mut rng, &focus, st, big as u8));
         st.bump("random_histories");
     }
     // every item × boundary size at least a few times
-    for item in ITEMS {
+    for item in ITEMS.iter().chain(KEYED_ITEMS.iter()) {
         for _ in 0..(if thorough { 12 } else { 2 }) {
-            emit(gen_one(item, &mut rng, &focus, st, true));
+            emit(gen_one(item, &mut rng, &focus, st, 1));
+            st.bump("random_histories");
+        }
+    }
+    // beyond small scope: a few hundred to a thousand elements, short histories (every item once; 8x in thorough)
+    for item in ITEMS.iter().chain(KEYED_ITEMS.iter()) {
+        for _ in 0..(if thorough { 8 } else { 1 }) {
+            emit(gen_one(item, &mut rng, &focus, st, 2));
             st.bump("random_histories");
         }
     }
@@ -1580,7 +2013,8 @@ fn gen(args: &Args, emit: &mut dyn FnMut(String), st: &mut Stats) {
             for mode in 0..5usize {
                 for k in 0..per {
                     let big = k % 8 == 7;
-                    let line = dispatch_typed!(base, ty, gen_typed, &name, sp, mode, &mut rng, &focus, st, big).expect("typed item");
+                    let line = dispatch_typed!(base, ty, gen_typed, &name, sp, mode, &mut rng, &focus, st, big)
+                        .expect("typed item");
                     emit(line);
                 }
             }
@@ -1607,7 +2041,13 @@ fn gen(args: &Args, emit: &mut dyn FnMut(String), st: &mut Stats) {
     //     model, as drift), empty constructors
     for item in ["minadd", "aff", "sum", "flipz"] {
         let v = if item == "flipz" { "1 0 1" } else { "1 2 3" };
-        let m = if item == "aff" { "1 1" } else if item == "sum" || item == "flipz" { "u" } else { "1" };
+        let m = if item == "aff" {
+            "1 1"
+        } else if item == "sum" || item == "flipz" {
+            "u"
+        } else {
+            "1"
+        };
         emit(format!("{} slice 3 {} ; ask 2 1 ; ask 0 3 ; set 3 1 ; mod 2 1 {} ; mod 1 3 {} ; ask 0 2", item, v, m, m));
         emit(format!("{} new 0 1 ; ask 0 0", item));
         emit(format!("{} slice 0 ; ask 0 0", item));
